@@ -3,7 +3,7 @@ from vlib.core import *
 SPEC = {
     "C21": ("^VerifC21RoundTrip$", "print -> parse -> compare of skeleton schemas in which EVERY number (explicit tags: all 2^32 values; mask bits 0..31; arithmetic constants) is symbolic; text produced by the real quicktemplate printer, numbers through exact %08x / decimal-contract models"),
     "C23": ("^VerifC23Tags$", "implicit tag == CRC32(canonical form) with CRC32 an uninterpreted function of the byte sequence (so layout independence holds for any checksum), explicit tags verbatim; relayout = varied whitespace / comments / line breaks between all tokens of the printed form"),
-    "C25": ("^VerifC25Canonical$", "canonical listing line per combinator: carries #%08x of the effective tag (decoded from the line, all tag values), re-parses to the same combinator when terminated"),
+    "C25": ("^VerifC25(Canonical|Listing)$", "canonical listing line per combinator: carries #%08x of the effective tag (decoded from the line, all tag values), re-parses to the same combinator when terminated"),
 }
 
 def run(tier, prop="C21"):
